@@ -145,6 +145,7 @@ type Bias struct {
 	Populated   int      // percent chance for a fully pre-populated original / update request
 	Updates     int      // percent chance that a plugin issues updates
 	IgnoreFlags int      // percent chance of ignore-failure on an update
+	Append      int      // percent chance to make 2-5 plugins append to one hook list / add distinct rlimit types or CDI names
 	NearMiss    int      // percent chance to force two plugins onto sibling items (same family / field, different key / target)
 	MaxPar      int
 }
@@ -294,6 +295,9 @@ func GenCase(t *rapid.T, b Bias) Case {
 			forceRelease(t, &c)
 		}
 	}
+	if c.Kind == "create" && len(c.Chain) >= 2 && rapid.IntRange(0, 99).Draw(t, "append") < b.Append {
+		forceAppend(t, &c)
+	}
 	if len(c.Chain) >= 2 && rapid.IntRange(0, 99).Draw(t, "nearmiss") < b.NearMiss {
 		forceNearMiss(t, &c)
 	}
@@ -301,6 +305,44 @@ func GenCase(t *rapid.T, b Bias) Case {
 		c.Par = rapid.IntRange(1, b.MaxPar).Draw(t, "par")
 	}
 	return c
+}
+
+// forceAppend makes several plugins contribute to one appended list: hooks of one kind (any
+// number of plugins), or distinct rlimit types / CDI names (one key per plugin, so up to
+// three), so that order and completeness of the combined list are exercised.
+func forceAppend(t *rapid.T, c *Case) {
+	fam := gen.Pick(t, "afam", []string{"hook", "rlimit", "cdi"})
+	keys := keysOf(fam)
+	hk := gen.Pick(t, "ahook", hookKeys)
+	next := gen.Uniform(t, "afirst", len(keys))
+	used := 0
+	for i := range c.Chain {
+		if rapid.IntRange(0, 9).Draw(t, "ajoin") >= 8 {
+			continue
+		}
+		s := &c.Chain[i]
+		if fam == "hook" {
+			if hasOp(s, "hook", hk) < 0 {
+				s.Ops = append(s.Ops, Op{Fam: "hook", Key: hk, Act: "add"})
+			}
+			continue
+		}
+		if used >= len(keys) {
+			break
+		}
+		k := keys[(next+used)%len(keys)]
+		// keep the case conflict-free: nobody else may set this key
+		free := true
+		for j := range c.Chain {
+			if j != i && hasOp(&c.Chain[j], fam, k) >= 0 {
+				free = false
+			}
+		}
+		if free && hasOp(s, fam, k) < 0 {
+			s.Ops = append(s.Ops, Op{Fam: fam, Key: k, Act: "set"})
+		}
+		used++
+	}
 }
 
 // forceNearMiss makes two plugins write sibling items that must NOT collide: two keys of
